@@ -205,6 +205,9 @@ pub struct Executor<E: Effect> {
     spawning: HashSet<ProcessId>,
     selecting: HashSet<ProcessId>,
     effecting: HashSet<ProcessId>,
+    // Processes that have terminated (completed, or failed; a persistent one only if it failed)
+    // since the last `take_terminated`. The worker reports them so the environment can close what they own.
+    terminated: Vec<ProcessId>,
     // Program data owned by executor
     constants: Vec<Constant>,
     functions: Vec<Function>,
@@ -608,6 +611,7 @@ impl<E: Effect> Executor<E> {
             spawning: HashSet::new(),
             selecting: HashSet::new(),
             effecting: HashSet::new(),
+            terminated: vec![],
             constants: vec![],
             functions: vec![],
             builtins: vec![],
@@ -1244,6 +1248,7 @@ impl<E: Effect> Executor<E> {
                     let Some(result) = process.stack.pop() else {
                         // Stack underflow - process finished with no result on stack
                         process.result = Some(Err(Error::StackUnderflow));
+                        self.note_terminated(current_pid);
                         return (true, None); // Did work but hit error
                     };
                     process.result = Some(Ok(result.clone()));
@@ -1252,6 +1257,7 @@ impl<E: Effect> Executor<E> {
             } else {
                 Value::nil()
             };
+            self.note_terminated(current_pid);
 
             // Notify any processes awaiting this one
             let awaiters: Vec<ProcessId> = self
@@ -1278,10 +1284,7 @@ impl<E: Effect> Executor<E> {
                     }
                     Some(Err(error)) => {
                         // Error - propagate to awaiter by setting their result
-                        if let Some(awaiter_process) = self.get_process_mut(awaiter) {
-                            awaiter_process.result = Some(Err(error.clone()));
-                            awaiter_process.frames.clear();
-                        }
+                        self.fail_process(awaiter, error.clone());
                     }
                     None => {
                         // No result yet (shouldn't happen at this point)
@@ -2687,6 +2690,32 @@ impl<E: Effect> Executor<E> {
         }
 
         Ok(None)
+    }
+
+    /// Terminate a process with an error that reached it from outside its own execution (the
+    /// failure of a process it awaits).
+    pub fn fail_process(&mut self, process_id: ProcessId, error: Error) {
+        if let Some(process) = self.get_process_mut(process_id) {
+            process.result = Some(Err(error));
+            process.frames.clear();
+            self.note_terminated(process_id);
+        }
+    }
+
+    /// A persistent process with a successful result is sleeping, not terminated: it can be
+    /// resumed. One that failed cannot.
+    fn note_terminated(&mut self, process_id: ProcessId) {
+        if self.get_process(process_id).is_some_and(|process| {
+            !process.persistent || matches!(process.result, Some(Err(_)))
+        }) {
+            self.terminated.push(process_id);
+        }
+    }
+
+    /// The processes that terminated since the last call. A process that was already queued to
+    /// run when it was failed from outside is listed twice.
+    pub fn take_terminated(&mut self) -> Vec<ProcessId> {
+        std::mem::take(&mut self.terminated)
     }
 
     /// Whether any process is queued to run immediately. Event-driven runtimes use this to
